@@ -26,7 +26,15 @@
          the rows are added while nobody receives, then the consumer receives up to <batches taken> waiting batches.
          Judged by chk_C09 when the model of the strategy (Model/CountingBlock.v, blk_run on that schedule) drops
          nothing, by chk_C09_lossy (N-blocks of their key, in order) when full-channel timeouts drop batches; then
-         batches = the model's received batches and sentCount / droppedCount = the model's. *)
+         batches = the model's received batches and sentCount / droppedCount = the model's.
+     P <tag> <hex SQL> <form> <N> <ncols> <nrows> {id v..} # {poisoned ids} # {error ids} # {value of v per row} # {..as S..} # {s per result}
+         a batch that fails half-way (harness/c09panic.go): the SQL holds <form>(f(v)) with a registered user scalar
+         function f that PANICS on the poisoned rows and returns an error on the error rows. Judged by chk_C09_sql when
+         no cut batch holds a poisoned row, else by chk_C09_lossy_sql (every result exactly one N-block of its tuple,
+         in order, none twice, none merged or cut: no row of a failed batch may reach another batch's result); then
+         results = the model of the consumer (Model/CountingFail.v fc_run on cw_run's batches: a batch that holds a
+         poisoned row is lost as a whole and leaves nothing in the aggregator), and s = <form> over the result's own rows
+         (sum | sum1 = sum(f(v) + 1) | max; error rows are skipped by that field only). *)
 open Model
 open Util
 
@@ -178,6 +186,46 @@ let handle (toks : string list) : string =
                      then "diff block_counters " ^ counters
                      else if List.length impl >= 2 then "ok nt" else "ok")
             | _ -> "bad line")
+       | _ -> "bad line")
+  | "P" :: _tag :: _sql :: form :: n :: ncols :: nrows :: rest ->
+      let n = int_of_string n and ncols = int_of_string ncols in
+      let (rows, r) = C04.parse_rows ncols (int_of_string nrows) rest in
+      (match Win.split_hash r with
+       | [ []; pois; errs; vals; obs; sums ] ->
+           let pois = List.map C04.zs pois and errs = List.map C04.zs errs in
+           if List.length vals <> List.length rows then "bad line" else
+           let value = List.combine (List.map (fun r -> r.krid) rows) (List.map int_of_string vals) in
+           let res = C04.parse_results ncols true obs in
+           if List.length sums <> List.length res then "bad line" else
+           let ids rs = List.map (fun r -> r.krid) rs in
+           let cutp = cw_run (nat_of_int n) rows in
+           let cut = List.map (fun (_, rs) -> ids rs) cutp in
+           let failed b = List.exists (fun i -> List.mem i pois) b in
+           (* the model of the consumer (Model/CountingFail.v): one aggregator across batches, Reset on both exits *)
+           let model = List.map (fun (_, rs) -> ids rs) (fc_run (fun r -> List.mem r.krid pois) cutp).fc_out in
+           let lost = List.length cut - List.length model in
+           let impl = List.map (fun g -> g.g_ids) res in
+           let chk = if lost = 0 then chk_C09_sql (nat_of_int n) rows res else chk_C09_lossy_sql (nat_of_int n) rows res in
+           let after = if lost > 0 then Printf.sprintf " after_failed_batch failed=%s" (C04.show_batches (List.filter failed cut)) else "" in
+           (match chk with
+            | Some c -> "chk " ^ C04.string_of_gclause c ^ after ^ " results=" ^ C04.show_batches impl
+                        ^ (if model <> impl then " model=" ^ C04.show_batches model else "")
+            | None ->
+                if model <> impl then "diff panic_batches" ^ after ^ " model=" ^ C04.show_batches model
+                else
+                  (* the aggregate over exactly the result's own rows *)
+                  let expected b =
+                    let vs = List.filter_map (fun i -> if List.mem i errs then None else Some (List.assoc i value)) b in
+                    (match form, vs with
+                     | _, [] -> "n"
+                     | "sum", _ -> "i" ^ string_of_int (List.fold_left (+) 0 vs)
+                     | "sum1", _ -> "i" ^ string_of_int (List.fold_left (+) 0 vs + List.length vs)
+                     | "max", _ -> "i" ^ string_of_int (List.fold_left max min_int vs)
+                     | _ -> failwith "bad form") in
+                  let bad = List.filter (fun (b, s) -> expected b <> s) (List.combine impl sums) in
+                  (match bad with
+                   | (b, s) :: _ -> Printf.sprintf "chk agg_value%s rows=%s %s=%s expected=%s" after (C04.show_ids b) form s (expected b)
+                   | [] -> if lost > 0 && List.length impl >= 2 then "ok nt" else "ok"))
        | _ -> "bad line")
   | "F" :: _tag :: _sql :: _raw :: n :: ncols :: nrows :: rest ->
       let n = int_of_string n and ncols = int_of_string ncols in
